@@ -18,6 +18,7 @@ import (
 	"testing"
 
 	"github.com/ProjectSerenity/firefly/kernel"
+	"verifharness/vlib/early15"
 	"pgregory.net/rapid"
 	"verifharness/vlib"
 )
@@ -988,4 +989,42 @@ func FuzzVerifC15(f *testing.F) {
 		c15Rec.n = 0
 		Fprintf(c15RecW, format, args...)
 	})
+}
+
+// ---------------------------------------------------------------------------
+// "usable before the allocator exists": before the package initialisers have run
+
+// TestVerifC15Early compares what the formatter produced when it was called from an init function
+// that runs before package kfmt's own initialiser (package early15) with what the same calls
+// produce now. The kernel prints its first messages in exactly that state: goruntime.Init runs the
+// package initialisers after pmm and vmm have already logged the memory map.
+func TestVerifC15Early(t *testing.T) {
+	st := vlib.For("C15")
+	defer vlib.Flush()
+	if !early15.Ran || len(early15.Probes) < 100 {
+		t.Fatalf("VERIF-HARNESS the early probes did not run (%d recorded)", len(early15.Probes))
+	}
+	type earlyCase struct {
+		Format string `json:"format"`
+		Args   string `json:"args"`
+	}
+	for _, p := range early15.Probes {
+		c := earlyCase{p.Format, fmt.Sprintf("%#v", p.Args)}
+		var fail *vlib.Failure
+		outputSink = nil
+		c15Rec.n, c15Rec.writes = 0, 0
+		pc := vlib.Catch(func() { Fprintf(c15RecW, p.Format, p.Args...) })
+		now := string(c15Rec.buf[:c15Rec.n])
+		switch {
+		case p.Panic != "":
+			fail = vlib.Failf("Fprintf(%q, %s) called before the package initialisers have run (as during early boot) panicked: %s; output up to then %q", p.Format, c.Args, p.Panic, p.Out)
+		case pc.Panicked:
+			fail = vlib.Failf("Fprintf(%q, %s) panicked: %v", p.Format, c.Args, pc)
+		case p.Out != now:
+			fail = vlib.Failf("Fprintf(%q, %s) wrote %q when called before the package initialisers had run and writes %q now", p.Format, c.Args, p.Out, now)
+		}
+		st.Case(c, true, "called-before-package-initialisation")
+		vlib.Report(t, "C15", c, fail)
+	}
+	earlyPrintBuffer.rIndex, earlyPrintBuffer.wIndex = 0, 0
 }
